@@ -332,12 +332,33 @@ Proof.
   destruct (X h c Hc) as (c' & Hc' & k1 & k2 & _). exists c'. auto.
 Qed.
 
-(* across a continuation: the rows reachable by nickname / table name keep table and id *)
-Theorem singletons_survive_continuation s c n c' :
-  save s = Ok c -> (In (n, c') (k_p_nicks c) \/ In (n, c') (k_p_tables c)) ->
-  exists c0, In c0 (heap s) /\ c_table c' = c_table c0 /\ c_id c' = c_id c0.
+(* across a continuation: the persistent names keep their handles, and every row keeps its
+   table, id and child index *)
+Lemma clean_handles_ext hs : forall h h1, clean_handles h hs = Ok h1 ->
+  forall x c, nth_error h x = Some c ->
+    exists c', nth_error h1 x = Some c' /\ c_table c' = c_table c /\ c_id c' = c_id c /\ c_index c' = c_index c.
 Proof.
-  unfold save. intros H Hin. dbind H as pn. dbind H as pt. injection H as <-.
-  cbn [k_p_nicks k_p_tables] in Hin.
-  destruct Hin as [Hin|Hin]; [eapply (save_rows_keys _ _ _ E); exact Hin|eapply (save_rows_keys _ _ _ E0); exact Hin].
+  induction hs as [|y r IH]; intros h h1 H x c Hx; cbn [clean_handles] in H.
+  - injection H as <-. exists c. auto.
+  - destruct (nth_error h y) as [cy|] eqn:Hy; [|discriminate]. dbind H as fs.
+    assert (Hx' : exists c1, nth_error (set_nth y (mkCell (c_table cy) (c_id cy) (c_index cy) fs) h) x = Some c1 /\
+                             c_table c1 = c_table c /\ c_id c1 = c_id c /\ c_index c1 = c_index c).
+    { rewrite nth_error_set_nth. destruct (Nat.eqb y x) eqn:Exy.
+      - apply Nat.eqb_eq in Exy. subst y. rewrite Hx. rewrite Hy in Hx. injection Hx as <-.
+        eexists. split; [reflexivity|]. cbn. auto.
+      - exists c. auto. }
+    destruct Hx' as (c1 & Hc1 & k1 & k2 & k3).
+    destruct (IH _ _ H x c1 Hc1) as (c' & Hc' & j1 & j2 & j3). exists c'. splits; congruence.
+Qed.
+
+Theorem singletons_survive_continuation e s c :
+  save s = Ok c ->
+  p_nicks (load e c) = p_nicks s /\ p_tables (load e c) = p_tables s /\
+  forall h cl, nth_error (heap s) h = Some cl ->
+    exists c', nth_error (heap (load e c)) h = Some c' /\
+               c_table c' = c_table cl /\ c_id c' = c_id cl /\ c_index c' = c_index cl.
+Proof.
+  unfold save. intros H. dbind H as h1. injection H as <-.
+  cbn [load p_nicks p_tables heap k_p_nicks k_p_tables k_heap]. splits; try reflexivity.
+  intros h cl Hc. eapply clean_handles_ext; eassumption.
 Qed.
